@@ -38,6 +38,8 @@ var verifC01Src = []string{
 	"update b set k = 1 where k = 99; delete from b where k = 99; insert into b select k from b where k = 99; select 1 / @z;",
 	// 11: two temporary tables changed before one COMMIT, changed again, ROLLBACK
 	"declare tt view (c1); declare uu view (c1); insert into tt values (1); insert into uu values (1); commit; insert into tt values (2); insert into uu values (2), (3); rollback; select 1 / @z;",
+	// 12: COMMIT inside a block in which a temporary table shadows an outer one; both were changed
+	"declare tt view (c1); insert into tt values (1); if 1 = 1 then declare tt view (c1); insert into tt values (5), (6); commit; end if; insert into tt values (2); rollback; select 1 / @z;",
 }
 var verifC01Progs [][]parser.Statement
 var verifC01Count, verifC01CountU parser.SelectQuery
@@ -109,6 +111,12 @@ func VerifC01Procedures() {
 			verifAssert("temporary table as at the last COMMIT", view.RecordLen() == 1)
 		} else {
 			verifAssert("temporary table after ROLLBACK and a committed insert", view.RecordLen() == 2)
+		}
+	case 12:
+		v1, e1 := Select(verifCtx(), scope, verifC01Count)
+		verifAssert("temporary table readable", e1 == nil)
+		if e1 == nil {
+			verifAssert("the shadowed outer table is as at the COMMIT made inside the block", v1.RecordLen() == 1)
 		}
 	case 11:
 		v1, e1 := Select(verifCtx(), scope, verifC01Count)
